@@ -104,6 +104,7 @@ class TlcResult:
         self.violation = None  # text of invariant/property violation
         self.error = None
         self.raw_tail = ""
+        self.all_out = ""
         self.wall = 0.0
         self.depth = 0
 
@@ -152,6 +153,7 @@ def run_tlc(module, cfg=None, workers=None, simulate=None, depth=None, seed=None
     timer = threading.Timer(timeout, lambda: p.kill())
     timer.start()
     tail = []
+    marks = []
     capture_violation = None
     try:
         for raw in p.stdout:
@@ -171,6 +173,8 @@ def run_tlc(module, cfg=None, workers=None, simulate=None, depth=None, seed=None
                     res.edges.append(v)
                 continue
             tail.append(line)
+            if line.startswith('<<"L", ') or line.startswith('<<"PROPFAIL"'):
+                marks.append(line)
             if len(tail) > 400:
                 del tail[:200]
             m = _RE_STATES.match(line)
@@ -191,7 +195,10 @@ def run_tlc(module, cfg=None, workers=None, simulate=None, depth=None, seed=None
             if line.startswith("Error: Invariant") or line.startswith("Error: Action property") or \
                     line.startswith("Error: Temporal properties were violated") or line.startswith("Error: Deadlock reached") \
                     or line.startswith("Error: Postcondition"):
-                capture_violation = [line]
+                if capture_violation is None:
+                    capture_violation = [line]
+                else:
+                    capture_violation.append(line)
             elif capture_violation is not None and len(capture_violation) < 5000:
                 capture_violation.append(line)
             elif line.startswith("Error:") and res.error is None and capture_violation is None:
@@ -201,6 +208,7 @@ def run_tlc(module, cfg=None, workers=None, simulate=None, depth=None, seed=None
     rc = p.wait()
     res.wall = time.time() - t0
     res.raw_tail = "\n".join(tail[-120:])
+    res.all_out = "\n".join(marks)
     shutil.rmtree(meta, ignore_errors=True)
     if capture_violation:
         res.violation = "\n".join(capture_violation)
